@@ -23,6 +23,7 @@ namespace c15
         virtual int newdata(const std::string &d, bool &has_ret) = 0;
         // sline_newdata(data, n) with the length exactly as given (C: int, may be negative; C++: size_t, n >= 0)
         virtual int newdata_n(const std::string &d, int n, bool &has_ret) = 0;
+        virtual bool newdata_sz(const std::string &, size_t) { return false; }   // igris::sline::newdata(data, size_t) with the size as given
         virtual bool clear() = 0;                                     // igris::sline::clear (false: no such call in this family)
         virtual bool set_size_cursor(unsigned len, unsigned cur) = 0; // igris::sline::set_size_and_cursor
         virtual int backspace(unsigned n) = 0;
